@@ -1055,7 +1055,7 @@ def replay_kind(kind, g, paths, build, scratch, nproc, mutant=None, record=True)
     _, refvals, problems = replay_paths(kind, [], refs, build, scratch, "%s-ref" % kind, mutant=mutant, record=False)
     if problems:
         return [], refvals, problems
-    parts = _chunks(list(paths), max(1, min(nproc, len(paths) // 20 or 1)))
+    parts = _chunks(list(paths), max(1, min(nproc, len(paths) // 12 or 1)))
 
     def one(i):
         return replay_paths(kind, [doubled(p) for p in parts[i]], refs, build, scratch,
@@ -1178,7 +1178,8 @@ def _run(rep, rng, tier, seed, build, mutant, kinds, maxlen, scratch):
 
     mark("tlc_lifecycle")
     # 2. thread partition specifications (TLC runs in the background while the replays go on)
-    side = cf.ThreadPoolExecutor(max_workers=3)
+    side = cf.ThreadPoolExecutor(max_workers=4)
+    thr_future = side.submit(thread_checks, rep, tier, seed, build, scratch, mutant, kinds)
     inv = ("INVARIANT Shapes\nINVARIANT PointIInSlotI\nINVARIANT NoPadEscapes\nINVARIANT IndependentOfP\n"
            "INVARIANT NoRace\nCHECK_DEADLOCK FALSE\n")
     ipinv = ("INVARIANT RestNonNegative\nINVARIANT EachPointOnce\nINVARIANT NothingElse\nINVARIANT SerialAfterJoin\n"
@@ -1227,7 +1228,7 @@ def _run(rep, rng, tier, seed, build, mutant, kinds, maxlen, scratch):
         plan[kind] = paths
     rep.cov["graph"] = stats
     total_paths = sum(len(p) for p in plan.values())
-    nproc_total = 14
+    nproc_total = 16
     replays, problems, refvals_of = {}, [], {}
 
     def do_kind(kind):
@@ -1301,8 +1302,8 @@ def _run(rep, rng, tier, seed, build, mutant, kinds, maxlen, scratch):
 
     # 5. thread counts
     mark("drift_fallback")
-    thread_checks(rep, tier, seed, build, scratch, mutant, kinds)
-    mark("thread_checks")
+    thr_future.result()
+    mark("thread_checks_wait")
     for name, fut in side_jobs:
         res = fut.result()
         rep.add_tlc(name, res)
